@@ -145,6 +145,17 @@ def check(res, tier):
             "gen.ddp": H + 'Die öffentliche generische Funktion zeig mit dem Parameter a vom Typ T Liste, gibt nichts zurück, macht:\n\tSchreibe (die Länge von a) auf eine Zeile.\nUnd kann so benutzt werden:\n\t"zeig <a>"\n\n'
                            'Die öffentliche Funktion zeig_zahl mit dem Parameter a vom Typ Zahl, gibt nichts zurück, macht:\n\tSchreibe a auf eine Zeile.\nUnd kann so benutzt werden:\n\t"zeig <a>"\n',
             "main.ddp": H + 'Binde "gen" ein.\nzeig 5.\nzeig (eine Liste, die aus 1, 2 besteht).\n'}),
+        ("generic-candidate-fails-after-reference-candidate", {"main.ddp": H + 'Die generische Funktion Doppel mit dem Parameter a vom Typ T, gibt ein T zurück, macht:\n\tGib a verkettet mit 1 zurück.\n'
+                                                                              'Und kann so benutzt werden:\n\t"<a> verdoppelt bitte"\n\nDie Funktion DoppelRef mit dem Parameter x vom Typ Zahlen Referenz, gibt eine Zahl zurück, macht:\n'
+                                                                              '\tGib x mal 2 zurück.\nUnd kann so benutzt werden:\n\t"<x> verdoppelt"\n\nDie Zahl z ist 5 verdoppelt bitte.\nSchreibe z auf eine Zeile.\n'}),
+        ("imported-generic-candidate-tried-and-discarded", {
+            "gen.ddp": 'Die öffentliche generische Funktion DoppeltRef mit dem Parameter a vom Typ T Referenz, gibt ein T zurück, macht:\n\tGib a verkettet mit "x" zurück.\nUnd kann so benutzt werden:\n\t"<a> doppelt"\n\n'
+                       'Die öffentliche generische Funktion DoppeltVal mit dem Parameter a vom Typ T, gibt ein T zurück, macht:\n\tGib a plus a zurück.\nUnd kann so benutzt werden:\n\t"<a> doppelt"\n',
+            "main.ddp": H + 'Binde "gen" ein.\n\nDie Zahl z ist 4.\nSchreibe (z doppelt) auf eine Zeile.\n'}),
+        ("local-generic-candidate-tried-and-discarded", {
+            "main.ddp": H + 'Die generische Funktion DoppeltRef mit dem Parameter a vom Typ T Referenz, gibt ein T zurück, macht:\n\tGib a verkettet mit "x" zurück.\nUnd kann so benutzt werden:\n\t"<a> doppelt"\n\n'
+                            'Die generische Funktion DoppeltVal mit dem Parameter a vom Typ T, gibt ein T zurück, macht:\n\tGib a plus a zurück.\nUnd kann so benutzt werden:\n\t"<a> doppelt"\n\n'
+                            'Die Zahl z ist 4.\nSchreibe (z doppelt) auf eine Zeile.\n'}),
         ("unused-import-of-broken-module", {"kaputt.ddp": "Die Zahl ist ist.\n", "main.ddp": H + 'Binde "kaputt" ein.\nSchreibe 1.\n'}),
         ("alias-clash", {"main.ddp": H + 'Die Funktion a1 gibt eine Zahl zurück, macht:\n\tGib 1 zurück.\nUnd kann so benutzt werden:\n\t"gleicher alias"\n\nDie Funktion a2 gibt eine Zahl zurück, macht:\n\tGib 2 zurück.\nUnd kann so benutzt werden:\n\t"gleicher alias"\n'}),
         ("operator-overload-bad-arity", {"main.ddp": H + 'Die Funktion op1 mit dem Parameter a vom Typ Text, gibt einen Text zurück, macht:\n\tGib a zurück.\nUnd überlädt den "plus" Operator.\n'}),
